@@ -15,6 +15,10 @@ BOOL = ("bool",)
 INTS = [I32, I32, I32, U8, I64, U32, I16]
 REC_P = ("rec", "P", (("a", I32), ("b", U8)))
 REC_Q = ("rec", "Q", (("p", REC_P), ("k", I64), ("f", BOOL)))
+OPT_I32 = ("opt", I32)
+OPT_P = ("opt", REC_P)
+ENUM_E = ("enum", "E", (("A", I32), ("B", U8), ("C", None), ("D", REC_P)))
+SUMS = [OPT_I32, OPT_I32, OPT_P, ENUM_E]
 
 
 def tyname(t):
@@ -25,6 +29,10 @@ def tyname(t):
     if t[0] == "arr":
         return "[%d]%s" % (t[1], tyname(t[2]))
     if t[0] == "rec":
+        return t[1]
+    if t[0] == "opt":
+        return "?" + tyname(t[1])
+    if t[0] == "enum":
         return t[1]
     raise ValueError(t)
 
@@ -49,6 +57,7 @@ class Gen:
         self.want_fault = fault
         self.budget = 0
         self.noprint = False      # helper functions are pure: they are called inside expressions
+        self.has_try = False
 
     def fresh(self, p="v"):
         self.n += 1
@@ -95,6 +104,11 @@ class Gen:
                 if qs and r.random() < 0.3:
                     return {"e": "fld", "x": {"e": "var", "n": r.choice(qs)[0], "ty": REC_Q}, "f": "p"}
             return {"e": "rec", "ty": t[1], "fs": [{"n": fn, "x": self.expr(ft, d + 1)} for fn, ft in t[2]]}
+        if t[0] in ("opt", "enum"):
+            cands = self.vars_of(lambda vt, m: vt == t)
+            if cands and r.random() < 0.5:
+                return {"e": "var", "n": r.choice(cands)[0], "ty": t}
+            return self.sum_lit(t, d)
         if t[0] == "bool":
             k = r.random()
             if d > 2 or k < 0.2:
@@ -152,6 +166,82 @@ class Gen:
         if k < 0.96 and d < 2:
             return {"e": "ifx", "c": self.expr(BOOL, d + 1), "t": self.value_block(t, d + 1), "f": self.value_block(t, d + 1)}
         return self.lit(t)
+
+    def variants(self, t):
+        """[(variant number, payload type or None, type text of the variant)]"""
+        if t[0] == "opt":
+            return [(1, t[1], tyname(t[1])), (2, None, "nil")]
+        return [(k + 1, pt, "%s.%s" % (t[1], vn)) for k, (vn, pt) in enumerate(t[2])]
+
+    def sum_lit(self, t, d=0):
+        k, pt, _ = self.r.choice(self.variants(t))
+        return {"e": "variant", "k": k, "x": self.expr(pt, d + 1) if pt is not None else NONE, "sty": t}
+
+    def stmt_sum(self):
+        """statements around one sum-typed value: build it, maybe reassign it, #is_variant, a switch whose arms
+        print the payload, a guarded #unwrap, and (optionals of i32) a call of the .try helper"""
+        r = self.r
+        t = r.choice(SUMS)
+        n = self.fresh("s")
+        ss = [{"s": "let", "n": n, "x": self.sum_lit(t), "ty": t, "mut": True}]
+        self.declare(n, t, True)
+        var = {"e": "var", "n": n, "ty": t}
+        if r.random() < 0.5:
+            ss.append({"s": "if", "c": self.expr(BOOL), "t": {"e": "blk", "label": "", "ss": [
+                {"s": "set", "l": {"l": "var", "n": n}, "x": self.sum_lit(t)}], "tail": NONE}, "f": NONE})
+        vs = self.variants(t)
+        k, pt, _ = r.choice(vs)
+        ss.append({"s": "print", "ty": BOOL, "x": {"e": "isvar", "x": var, "k": k, "sty": t}})
+        # switch: a random subset of arms in random order, default if not exhaustive (or anyway)
+        order = vs[:]
+        r.shuffle(order)
+        keep = order[:r.randrange(1, len(order) + 1)]
+        arms = []
+        b = self.fresh("w")
+        for (vk, vpt, _) in keep:
+            self.scopes.append({})
+            body = []
+            if vpt is not None:
+                self.declare(b, vpt, False)
+                if vpt[0] == "int":
+                    # the argument of an enum arm has the variant's own (nominal) type: cast it
+                    body.append({"s": "print", "ty": vpt, "x": {"e": "cast", "ty": jty(vpt), "x": {"e": "var", "n": b, "ty": vpt}}
+                                 if t[0] == "enum" else {"e": "var", "n": b, "ty": vpt}})
+                else:
+                    body.append({"s": "print", "ty": I32, "x": {"e": "fld", "x": {"e": "var", "n": b, "ty": vpt}, "f": "a"}})
+            body.append({"s": "print", "ty": I32, "x": self.lit(I32)})
+            if self.budget > 0 and r.random() < 0.4:
+                self.budget -= 1
+                body.append(self.stmt())
+            self.scopes.pop()
+            arms.append({"k": vk, "body": {"e": "blk", "label": "", "ss": body, "tail": NONE}})
+        dflt = NONE
+        if len(keep) < len(vs) or r.random() < 0.3:
+            dflt = {"e": "blk", "label": "", "ss": [
+                {"s": "print", "ty": BOOL, "x": {"e": "isvar", "x": {"e": "var", "n": b, "ty": t}, "k": vs[0][0], "sty": t}}], "tail": NONE}
+        ss.append({"s": "switch", "x": var, "bind": b, "arms": arms, "dflt": dflt, "sty": t})
+        # a guarded unwrap
+        if pt is not None and pt[0] == "int":
+            ss.append({"s": "if", "c": {"e": "isvar", "x": var, "k": k, "sty": t},
+                       "t": {"e": "blk", "label": "", "ss": [{"s": "print", "ty": pt, "x": {"e": "cast", "ty": jty(pt), "x": {"e": "unwrap", "x": var, "k": k, "sty": t}}
+                                                                  if t[0] == "enum" else {"e": "unwrap", "x": var, "k": k, "sty": t}}], "tail": NONE},
+                       "f": NONE})
+        if t == OPT_I32 and self.has_try:
+            res = self.fresh("s")
+            ss.append({"s": "let", "n": res, "ty": OPT_I32, "mut": False,
+                       "x": {"e": "call", "f": "try_add", "args": [var, self.expr(I32)]}})
+            self.declare(res, OPT_I32, False)
+            ss.append({"s": "print", "ty": BOOL, "x": {"e": "isvar", "x": {"e": "var", "n": res, "ty": OPT_I32}, "k": 2, "sty": OPT_I32}})
+        return ss
+
+    def try_helper(self):
+        """try_add :: (o: ?i32, d: i32) -> ?i32 { defer ..; v := o.try; v + d }  (the defer must run on both paths)"""
+        return {"name": "try_add", "params": [{"n": "o", "ty": OPT_I32}, {"n": "d", "ty": I32}], "ret": OPT_I32,
+                "body": {"e": "blk", "label": "", "ss": [
+                    {"s": "defer", "x": {"s": "print", "ty": I32, "x": {"e": "var", "n": "d", "ty": I32}}},
+                    {"s": "let", "n": "v", "ty": I32, "mut": False, "x": {"e": "try", "x": {"e": "var", "n": "o", "ty": OPT_I32}}}],
+                    "tail": {"e": "variant", "k": 1, "sty": OPT_I32,
+                             "x": {"e": "bin", "op": "add", "l": {"e": "var", "n": "v", "ty": I32}, "r": {"e": "var", "n": "d", "ty": I32}}}}}
 
     def index_lit(self, k):
         return {"e": "int", "ty": {"w": 8, "s": False}, "b": list(k.to_bytes(8, "little")), "usize": True}
@@ -235,6 +325,10 @@ class Gen:
             if not self.noprint and self.r.random() < 0.06:
                 self.budget -= 2
                 ss += self.stmt_aggcmp()
+                continue
+            if not self.noprint and self.r.random() < 0.08:
+                self.budget -= 3
+                ss += self.stmt_sum()
                 continue
             ss.append(self.stmt(allow_jump))
         self.scopes.pop()
@@ -358,6 +452,10 @@ class Gen:
                 self.budget -= 2
                 ss += self.stmt_aggcmp()
                 continue
+            if not self.noprint and self.r.random() < 0.12:
+                self.budget -= 3
+                ss += self.stmt_sum()
+                continue
             ss.append(self.stmt())
         tail = self.expr(ret) if ret is not None else NONE
         self.scopes.pop()
@@ -375,6 +473,8 @@ class Gen:
             fns.append(fn)
             self.fns.append((name, ptys, ret))
         self.noprint = False
+        fns.append(self.try_helper())
+        self.has_try = True
         main = self.function("main", [], I32, self.size)
         if self.want_fault:
             # one out-of-range access at the end of main, after everything else was printed
@@ -394,7 +494,8 @@ class Gen:
 OPS = {"add": "+", "sub": "-", "mul": "*", "and": "&", "or": "|", "xor": "~", "shl": "<<", "shr": ">>",
        "lt": "<", "le": "<=", "gt": ">", "ge": ">=", "eq": "==", "ne": "!=", "land": "&&", "lor": "||"}
 
-PRELUDE_TYPES = "P :: struct { a: i32, b: u8 };\nQ :: struct { p: P, k: i64, f: bool };\n"
+PRELUDE_TYPES = ("P :: struct { a: i32, b: u8 };\nQ :: struct { p: P, k: i64, f: bool };\n"
+                 "E :: enum { A: i32, B: u8, C, D: P };\n")
 
 
 class Render:
@@ -428,7 +529,12 @@ class Render:
         if k == "type":
             return e.get("text") or self.ty_of_jty(e["ty"])
         if k == "call":
-            return "%s(%s)" % (e["f"], ", ".join(self.expr(a) for a in e.get("cargs", []) + e["args"]))
+            cargs, args = e.get("cargs", []), e["args"]
+            if e.get("order"):          # declared parameter order: ("c", i) comptime / ("p", i) run-time
+                seq = [cargs[i] if kind == "c" else args[i] for kind, i in e["order"]]
+            else:
+                seq = cargs + args
+            return "%s(%s)" % (e["f"], ", ".join(self.expr(a) for a in seq))
         if k == "idx":
             return "%s[%s]" % (self.expr(e["a"]), self.expr(e["i"]))
         if k == "fld":
@@ -443,7 +549,23 @@ class Render:
             return self.block(e, 1)
         if k == "none":
             return ""
+        if k == "variant":
+            t = self.tup(e["sty"])
+            if t[0] == "opt":
+                return "%s.(%s)" % (tyname(t), self.expr(e["x"]) if e["k"] == 1 else "nil")
+            vn, pt = t[2][e["k"] - 1]
+            return "%s.(%s.%s%s)" % (t[1], t[1], vn, ".(%s)" % self.expr(e["x"]) if pt is not None else "")
+        if k in ("isvar", "unwrap"):
+            return "%s(%s, %s)" % ("#is_variant" if k == "isvar" else "#unwrap", self.expr(e["x"]), self.vty(e["sty"], e["k"]))
+        if k == "try":
+            return "%s.try" % self.expr(e["x"])
         raise ValueError(k)
+
+    def vty(self, t, k):
+        t = self.tup(t)
+        if t[0] == "opt":
+            return tyname(t[1]) if k == 1 else "nil"
+        return "%s.%s" % (t[1], t[2][k - 1][0])
 
     def place(self, l):
         if l["l"] == "var":
@@ -499,6 +621,15 @@ class Render:
             if s["f"]["e"] != "none":
                 txt += " else %s" % self.indent(self.expr(s["f"]))
             return [txt + ";"]
+        if k == "switch":
+            t = self.tup(s["sty"])
+            lines = ["switch %s in %s {" % (s["bind"], self.expr(s["x"]))]
+            for a in s["arms"]:
+                lines.append("    %s => %s," % (self.vty(t, a["k"]), self.indent(self.indent(self.expr(a["body"])))))
+            if s["dflt"]["e"] != "none":
+                lines.append("    _ => %s," % self.indent(self.indent(self.expr(s["dflt"]))))
+            lines.append("};")
+            return lines
         if k == "break":
             lab = " `%s" % s["label"] if s["label"] else ""
             val = " " + self.expr(s["x"]) if s["x"]["e"] != "none" else ""
@@ -519,8 +650,11 @@ class Render:
 
     def fn(self, f):
         cps = ["comptime %s: %s" % (p["n"], p["kind"]) for p in f.get("cparams", [])]
-        ps = ", ".join(cps + ["%s: %s" % (p["n"], p["ty"] if isinstance(p["ty"], str) else tyname(self.tup(p["ty"])))
-                              for p in f["params"]])
+        rps = ["%s: %s" % (p["n"], p["ty"] if isinstance(p["ty"], str) else tyname(self.tup(p["ty"]))) for p in f["params"]]
+        if f.get("order"):
+            ps = ", ".join(cps[i] if kind == "c" else rps[i] for kind, i in f["order"])
+        else:
+            ps = ", ".join(cps + rps)
         if isinstance(f.get("ret"), str):
             return "%s :: (%s) -> %s %s" % (f["name"], ps, f["ret"], self.block(f["body"], 1))
         return self.fn_plain(f, ps)
@@ -536,7 +670,7 @@ class Render:
 def strip(x):
     """the abstract syntax without the renderer's annotations (types of lets / prints etc.)"""
     if isinstance(x, dict):
-        return {k: strip(v) for k, v in x.items() if k not in ("ty", "mut", "flat", "elem", "usize", "ret", "kind", "text", "plain")
+        return {k: strip(v) for k, v in x.items() if k not in ("ty", "mut", "flat", "elem", "usize", "ret", "kind", "text", "plain", "sty", "order")
                 or (k == "ty" and x.get("e") in ("int", "cast", "rec", "type"))}
     if isinstance(x, (list, tuple)):
         return [strip(v) for v in x]
